@@ -63,9 +63,15 @@ EDITS=[
  ("C23","readline-escape-never-cleared","interp/builtin.go",("\t\t\t\tline = append(line, b)\n\t\t\t\tesc = !esc","\t\t\t\tline = append(line, b)\n\t\t\t\tesc = true"),"interp.Runner.readLine#inv-pres@loop1.line-is-spec"),
  ("C23","readline-raw-keeps-escapes","interp/builtin.go",("\t\t\tcase !raw && b == '\\\\':","\t\t\tcase b == '\\\\':"),"interp.Runner.readLine#inv-pres@loop1.line-is-spec"),
  ("C23","readline-returns-newline","interp/builtin.go",("\t\t\tcase b == '\\n':\n\t\t\t\treturn line, nil","\t\t\tcase b == '\\n':\n\t\t\t\treturn append(line, b), nil"),"interp.Runner.readLine#ensures@line-at-newline"),
+ ("C28","flag-keeps-one-letter-pending","interp/builtin.go",("\tif len(arg) > 2 {\n\t\t// We have \"-ab\", so return \"-a\" and keep \"-b\".","\tif len(arg) >= 2 {\n\t\t// We have \"-ab\", so return \"-a\" and keep \"-b\"."),"interp.flagParser.flag#onstore@flagParser.current"),
+ ("C28","more-accepts-any-argument","interp/builtin.go",("\tif len(arg) == 0 || (arg[0] != '-' && arg[0] != '+') {\n\t\t// The next argument is not a flag.\n\t\treturn false\n\t}","\tif len(arg) == 0 {\n\t\t// The next argument is not a flag.\n\t\treturn false\n\t}"),"interp.flagParser.more#ensures@more-means-pending"),
+ ("C28","params-forgets-lone-plus","interp/api.go",("\t\t\tif flag == \"-\" || flag == \"+\" {","\t\t\tif flag == \"-\" {"),"interp.Params$1#index@flag[1]"),
+ ("C28","test-v-empty-name-again","interp/test.go",("\t\treturn x != \"\" && r.lookupVar(x).IsSet()","\t\treturn r.lookupVar(x).IsSet()"),"interp.Runner.unTest#call-requires@interp.Runner.lookupVar"),
+ ("C28","untest-forgets-an-operator","interp/test.go",("\tcase syntax.TsNot:\n\t\treturn x == \"\"\n",""),"interp.Runner.unTest#panic@"),
+ ("C16","yield-wrapper-appends-in-place","expand/braces.go",("\t\t\t\tw.Parts = slices.Concat(left, w.Parts)","\t\t\t\tw.Parts = append(left, w.Parts...)"),"expand.bracesSeqRec$1$1#onstore@Word.Parts"),
  ("C18","hasmeta-forgets-question-mark","pattern/pattern.go",("\t\tcase '*', '?':\n\t\t\treturn true","\t\tcase '*':\n\t\t\treturn true"),"pattern.HasMeta#"),
  ("C18","hasmeta-skips-two","pattern/pattern.go",("\t\tcase '\\\\':\n\t\t\ti++\n\t\tcase '*', '?':","\t\tcase '\\\\':\n\t\t\ti += 2\n\t\tcase '*', '?':"),"pattern.HasMeta#"),
- ("C18","hasmeta-any-bracket","pattern/pattern.go",("\t\t\tif openBracket {\n\t\t\t\treturn true\n\t\t\t}","\t\t\treturn true"),"pattern.HasMeta#"),
+ ("C18","hasmeta-any-bracket","pattern/pattern.go",("\t\t\tif openBracket {\n\t\t\t\treturn true\n\t\t\t}","\t\t\tif openBracket || i > 0 {\n\t\t\t\treturn true\n\t\t\t}"),"pattern.HasMeta#"),
  ("C18","quotemeta-forgets-bracket","pattern/pattern.go",("\t\tcase '*', '?', '[', '\\\\':\n\t\t\tsb.WriteByte('\\\\')","\t\tcase '*', '?', '\\\\':\n\t\t\tsb.WriteByte('\\\\')"),"pattern.QuoteMeta#"),
  ("C18","quotemeta-fastpath-misses-backslash","pattern/pattern.go",("\t\tcase '*', '?', '[', '\\\\':\n\t\t\tneedsEscaping = true","\t\tcase '*', '?', '[':\n\t\t\tneedsEscaping = true"),"pattern.QuoteMeta#"),
  ("C18","quotemeta-escape-after","pattern/pattern.go",("\t\t\tsb.WriteByte('\\\\')\n\t\t}\n\t\tsb.WriteRune(r)","\t\t\tsb.WriteRune(r)\n\t\t\tsb.WriteByte('\\\\')\n\t\t\tcontinue\n\t\t}\n\t\tsb.WriteRune(r)"),"pattern.QuoteMeta#"),
@@ -112,7 +118,7 @@ SEEDS=[ # prop, seed dir, expect
  ("C28","C23-2","interp.Runner.readLine#inv-pres@"),("C23","C23-2","interp.Runner.readLine#inv-pres@"),("C23","C23-1","expand.ReadFields#inv-"),
  ("C06","C06-2","syntax#eof-exit@Parser.zshSubFlags"),
  ("C08","C06-1","syntax.Parser.reset#"),
- ("C23","C23-3","interp.Runner.readLine#inv-pres@loop1.line-is-spec"),("C28","C28-4","interp.Runner.cmd#index@items[c-1]"),("C34","C34-2","expand.listEnviron.Get$1#ensures@agrees-with-sort-key"),("C30","C30-4","interp#opts-mirrored@Runner.builtin"),
+ ("C16","C16-3","expand.bracesSeqRec$1$1#onstore@Word.Parts"),("C23","C23-3","interp.Runner.readLine#inv-pres@loop1.line-is-spec"),("C28","C28-4","interp.Runner.cmd#index@items[c-1]"),("C34","C34-2","expand.listEnviron.Get$1#ensures@agrees-with-sort-key"),("C30","C30-4","interp#opts-mirrored@Runner.builtin"),
  ("C07","C07-1","syntax#refill-retry@Parser.rune"),("C07","C07-2","syntax#refill-at-boundary@Parser.rune"),("C07","C08-2","syntax#refill-at-boundary@Parser.advanceLitHdoc"),
 ]
 REVERTS=[ # prop, fix commit in /repo whose reversal must be caught, expect
